@@ -236,11 +236,11 @@ class Clean:
             s.dirty_on_err = True
             return s
         self.stack.add(key)
-        # analysed with closures of std combinators / callable values folded in (cleanup written as
-        # `.map_err(|e| { out.zeroize(); e })` is cleanup); named helpers stay calls with their own summaries
+        # analysed with private helpers, closures of std combinators and callable values folded in (cleanup
+        # written as `.map_err(|e| { out.zeroize(); e })` or `on_failure(res, || out.zeroize())` is cleanup)
         if fn.prog is not None and not getattr(fn, "inlined", None) and fn.kind != "closure":
             from .inline import inline
-            fn = inline(fn.prog, fn, pick=lambda call, t: False)
+            fn = inline(fn.prog, fn)
         s = self._analyse(fn, param)
         self.stack.discard(key)
         self.memo[key] = s
@@ -342,6 +342,12 @@ class Clean:
                                                          cut_edges=list(cut_edges) + extra)
                         if xb not in after2:
                             continue
+                # the Err value defined at xb must also reach a return without passing a zeroing (cleanup
+                # that runs after the failing call returned, e.g. `if res.is_err() { out.zeroize() }`)
+                rets_ = [b_ for b_ in range(fn.n) if fn.blocks[b_]["t"]["k"] == "return"]
+                if fn.blocks[xb]["t"]["k"] != "return" and xb not in zero_blocks and \
+                        not any(r_ in fn.reachable_from_after(xb, cut_blocks=zero_blocks) for r_ in rets_):
+                    continue
                 s.violations.append((eb, xb, text, "Err exit at %s reachable after the write with no zeroing in between" % fn.loc(xb)))
         s.dirty_on_err = bool(s.violations)
         return s
